@@ -1,6 +1,6 @@
 \* C03 leg A thorough: 3 stores, <= 2 frames per store, <= 3 frames in all, 3 label sets (two replicas of one
 \* series, replica label in the middle), 5 chunk lists (raw, none, aggregated identical /
-\* sharing count / sharing sum), response batch 2; worlds for the harness: the 2-store worlds, every 12th
+\* sharing count / sharing sum), response batch 2; worlds for the harness: the 2-store worlds, every 24th
 SPECIFICATION Spec
 CONSTANTS NStores = 3
           MaxPerStore = 2
@@ -11,7 +11,7 @@ CONSTANTS NStores = 3
           CaseStores = 2
           CasePerStore = 2
           CaseTotal = 3
-          CaseStride = 12
+          CaseStride = 24
 INVARIANTS C03_Response C03_EmittedIsFinal C03_Batching C03_TieIndependent
 PROPERTY C03_Progresses
 CHECK_DEADLOCK TRUE
